@@ -106,6 +106,8 @@ type Config struct {
 	OnPacketIn  func(seq uint32, payload []byte) // observes every payload read
 	// Ext holds optional scripted deviations for the kex methods of ext.go (nil = well-behaved).
 	Ext *Ext
+	// Guess makes this side announce first_kex_packet_follows and guess (guess.go; nil = never).
+	Guess *Guess
 }
 
 func (c *Config) defaults(isClient bool) {
@@ -177,6 +179,8 @@ type Conn struct {
 	// SeqAtNewKeys records the sequence numbers seen right after each NEWKEYS (for strict-kex checks).
 	SeqOutAfterNewKeys, SeqInAfterNewKeys []uint32
 	inBeforeWrite                         bool
+	// Guesses lists the guesses this side made (one per key exchange while Config.Guess is set).
+	Guesses []GuessEvent
 }
 
 // ---- version exchange ----
@@ -342,7 +346,7 @@ func (c *Conn) buildKexInit() []byte {
 	w.List(c.Cfg.MACsCS).List(c.Cfg.MACsSC)
 	w.List(c.Cfg.Compression).List(c.Cfg.Compression)
 	w.List(nil).List(nil)
-	w.Bool(false).U32(0)
+	w.Bool(c.Cfg.Guess != nil).U32(0) // first_kex_packet_follows: see guess.go (false unless Config.Guess is set)
 	return w.B
 }
 
@@ -458,6 +462,9 @@ func (c *Conn) kex(peerInit []byte) error {
 	}
 	if n.HostKey == "" {
 		return errors.New("refpeer: no common host key algorithm")
+	}
+	if err := c.sendGuess(cl, sv); err != nil { // no-op unless Config.Guess is set (guess.go)
+		return err
 	}
 	var res *KexResult
 	if c.IsClient {
